@@ -301,6 +301,42 @@ theorem omega_diag_remove_reads_back (r : List DNode) (inds : List Nat) :
     rw [this]
   | cons a as => simpa using removeDiagAux_parse (a :: as) 0 true r
 
+/-- names after `remove`: for every diagonal record (any items, any comments, note lines, blanks and newlines
+    between them; `DIAGONAL(n)` only in front of the first item, as the grammar has it) and every index set, the
+    kept items are read under exactly the names they had — the name comments of a removed item (on its line or on
+    stand-alone lines below it, up to the next item) go with it and are never attributed to a kept item -/
+theorem omega_diag_remove_names (r : List DNode) (inds : List Nat) (h : diagonalInFront r = true) :
+    diagNames (removeDiag r inds) = dropIdx inds 0 (diagNames r) := by
+  unfold removeDiag
+  cases inds with
+  | nil => simp [dropIdx_nil]
+  | cons a as => simpa using removeDiagAux_names (a :: as) 0 true r h
+
+/-- names and values together: what is read for every kept item after `remove` -/
+theorem omega_diag_remove_reads_back_named (r : List DNode) (inds : List Nat) (h : diagonalInFront r = true) :
+    (parseDiagItems (removeDiag r inds)).zip (diagNames (removeDiag r inds)) =
+      (dropIdx inds 0 (parseDiagItems r)).zip (dropIdx inds 0 (diagNames r)) := by
+  rw [omega_diag_remove_reads_back, omega_diag_remove_names r inds h]
+
+/-- the regular expression of `_get_name` on the spellings that occur -/
+theorem comment_name_examples :
+    commentName "; IIV_V" = some "IIV_V" ∧ commentName ";IIV_V [L/h]" = some "IIV_V" ∧
+    commentName "; previous_value 0.4" = some "previous_value" ∧ commentName "; 2nd value" = none ∧
+    commentName "; 0.4 ; was_fixed" = some "was_fixed" ∧ commentName "\n" = none ∧ commentName ";" = none := by
+  decide
+
+/-- non-vacuity: `$OMEGA 0.1⏎ 0.2⏎ ; IIV_V⏎ 0.3 ; IIV_KA⏎` with the second item removed: the stand-alone name
+    comment goes with it, the first item stays unnamed -/
+example :
+    let r := [DNode.tok tokWs, .item [nNum .init "0.1" 1 10], .tok nNewline, .tok tokWs,
+              .item [nNum .init "0.2" 1 5], .tok nNewline, .tok tokWs, .tok (nComment "; IIV_V"), .tok nNewline, .tok tokWs,
+              .item [nNum .init "0.3" 3 10], .tok tokWs, .tok (nComment "; IIV_KA"), .tok nNewline]
+    diagonalInFront r = true ∧ diagNames r = [none, some "IIV_V", some "IIV_KA"] ∧
+      diagNames (removeDiag r [1]) = [none, some "IIV_KA"] ∧
+      removeDiag r [1] = [DNode.tok tokWs, .item [nNum .init "0.1" 1 10], .tok nNewline, .tok tokWs,
+              .item [nNum .init "0.3" 3 10], .tok tokWs, .tok (nComment "; IIV_KA"), .tok nNewline] := by
+  decide
+
 /-- the split-xn path inverts the FIX logic: `$OMEGA (0.1 FIX)x2` with the second variance changed and
     both still fixed is written `(0.1) (0.25)` — both unfixed -/
 theorem omega_diag_split_fix_witness :
